@@ -92,7 +92,7 @@ inductive Effect
   | fin (id : Bytes)
   | req (id : Bytes) (ns : Int)
   | touch (id : Bytes)
-  | identify (hbNs obSize obtNs sampleRate msgTimeoutNs : Int)
+  | identify (d : IdentifyData)
   | cls
 deriving DecidableEq, Repr
 
@@ -211,9 +211,6 @@ def applyIdentify (conf : Conf) (s : ConnState) (d : IdentifyData) : Option Conn
             some { s with hbNs := hb, obSize := sz, obtNs := if d.outBufSize = -1 then 0 else t,
                           sampleRate := d.sampleRate, msgTimeoutNs := mt }
 
-def identEff (s : ConnState) : Effect :=
-  .identify s.hbNs s.obSize s.obtNs s.sampleRate s.msgTimeoutNs
-
 /-! ## Commands -/
 
 def cIDENTIFY : Bytes := ascii "IDENTIFY"
@@ -242,13 +239,13 @@ def identify (conf : Conf) (s : ConnState) (b : Broker) (rest : Bytes) : Step :=
         match applyIdentify conf s d with
         | none => fatal .E_BAD_BODY s b
         | some s' =>
-          if !d.featureNegotiation then done (some .ok) s' b r [identEff s']
+          if !d.featureNegotiation then done (some .ok) s' b r [.identify d]
           else if (conf.deflateEnabled && d.deflate) && (conf.snappyEnabled && d.snappy) then
             fatal .E_IDENTIFY_FAILED s' b
           else if (conf.tlsConfigured && d.tlsv1) || (conf.snappyEnabled && d.snappy)
                   || (conf.deflateEnabled && d.deflate) then
-            ⟨.upgraded, some .json, s', b, r, [identEff s']⟩
-          else done (some .json) s' b r [identEff s']
+            ⟨.upgraded, some .json, s', b, r, [.identify d]⟩
+          else done (some .json) s' b r [.identify d]
 
 def authStep (conf : Conf) (s : ConnState) (b : Broker) (r : Bytes) : Step :=
   match conf.authCmd with
